@@ -378,7 +378,9 @@ MUTANTS = [
     ("step-dict-under-cmdline", IS, "            setup_dict = config[\"param_dict\"].copy()\n            setup_dict.update(param_dict)\n            setup_dict[\"vms\"] = test_object.suffix", "            setup_dict = param_dict.copy()\n            setup_dict.update(config[\"param_dict\"])\n            setup_dict[\"vms\"] = test_object.suffix", "2b"),
     ("all-vms-not-selected", IS, "        for test_object in [o for o in graph.objects if o.key == \"vms\"]:\n            setup_dict = config[\"param_dict\"].copy()\n            setup_dict.update(param_dict)",
      "        for test_object in [o for o in graph.objects if o.key == \"vms\"][:1]:\n            setup_dict = config[\"param_dict\"].copy()\n            setup_dict.update(param_dict)", "2"),
-    ("params-leak", IS, "    tool(config, tag=tag)\n    config[\"param_dict\"] = setup_dict", "    tool(config, tag=tag)", "5p"),
+    ("params-leak", IS, "    try:\n        status = tool(config, tag=tag)\n    finally:\n        # a raising tool must not leak the temporary parameters to later steps\n        config[\"param_dict\"] = setup_dict\n    return status", "    status = tool(config, tag=tag)\n    return status", "5p"),
+    ("params-restored-on-success-only", IS, "    try:\n        status = tool(config, tag=tag)\n    finally:\n        # a raising tool must not leak the temporary parameters to later steps\n        config[\"param_dict\"] = setup_dict\n    return status", "    status = tool(config, tag=tag)\n    config[\"param_dict\"] = setup_dict\n    return status", "5p"),
+    ("status-of-reused-tool-dropped", IS, "    return _reuse_tool_with_param_dict(\n        config,\n        tag,\n        {\n            \"set_state_images\": \"root\",", "    _reuse_tool_with_param_dict(\n        config,\n        tag,\n        {\n            \"set_state_images\": \"root\",", "5x"),
     ("rerun-finished", IS, "        flag=lambda self, slot: not self.is_shared_root()\n        and slot not in self.shared_finished_workers,\n    )\n    r.run_workers(graph, config[\"param_dict\"])\n    LOG_UI.info(\"Finished %s\", operation)",
      "        flag=lambda self, slot: not self.is_shared_root(),\n    )\n    r.run_workers(graph, config[\"param_dict\"])\n    LOG_UI.info(\"Finished %s\", operation)", "4"),
     ("set-does-unset", IS, "    operation = \"set\"\n", "    operation = \"unset\"\n", "5s"),
